@@ -24,7 +24,13 @@ handed over by either source can be made one that does not lead to a usable file
 (`missing`), a directory, an empty file, a file without read permission, a dangling symbolic link, a path THROUGH a
 regular file; for the output: an existing directory, a directory that does not exist, a path through a regular file,
 a file without write permission.  `TEXT_PROFILES` / `Text`: non-ASCII but legal text for everything that is copied from
-the configuration, the token and the KSR into an SKR (KSK labels, ZSK identifiers, request and bundle ids)."""
+the configuration, the token and the KSR into an SKR (KSK labels, ZSK identifiers, request and bundle ids).
+`XML_TEXT_PROFILES`: the same with XML-special content in the texts that come from the KSR (entity and character references,
+apostrophe, tab, a bare ampersand) — the repository's reader hands them over verbatim, so the writer must put them back
+verbatim (`echo_mismatch`, `resolve_references`, `raw_ids`); `RELATED_TEXT_PROFILES`: labels / identifiers / ids that are
+distinct but related as strings (prefix, case, …).  `shared_section_options()`: option names occurring in two sections of the
+configuration (read off the pydantic models), for ceremonies whose sections DIFFER in them (`rp_extra`,
+`response_policy_extra`); `corrupt_signature()` makes a previous SKR (or KSR) whose signature does not verify."""
 
 from __future__ import annotations
 
@@ -742,19 +748,30 @@ def output_files(earlier_skr: bytes | None = None) -> list[tuple[str, bytes | No
 class Text:
     """How a history spells what ends up in its SKRs.  KSK labels must fit the configuration's `^[\\w_]+$` (Unicode-aware:
     letters and digits of any script, no combining marks, no punctuation); ZSK key identifiers, request ids and bundle ids
-    are xsd:string in schema/ksr.rnc (no quote, `<`, `&` here: escaping is C11/C13's subject)."""
+    are xsd:string in schema/ksr.rnc (TEXT_PROFILES: no quote, `<`, `&`; XML_TEXT_PROFILES: character / entity references and
+    other XML-special content, written into the KSR as RAW attribute text — the strings below are what stands between the
+    quotes in the file).
+    references: a standard parser shows the raw text differently (it resolves references and turns a tab in an attribute
+    into a blank; the repository's reader hands the text over verbatim); wellformed: a standard XML parser can read a document holding it; ksk_map / rid_fn: spellings that are not a
+    format string (labels related to EACH OTHER; request ids related to the previous quarter's)."""
 
-    def __init__(self, name: str, ksk: str, zsk: str, rid: str) -> None:
+    def __init__(self, name: str, ksk: str, zsk: str, rid: str, *, references: bool = False, wellformed: bool = True, ksk_map: dict[str, str] | None = None, rid_fn: Any = None) -> None:
         self.name = name
         self._ksk, self._zsk, self._rid = ksk, zsk, rid
+        self.references, self.wellformed = references, wellformed
+        self._ksk_map, self._rid_fn = ksk_map, rid_fn
 
     def ksk(self, label: str) -> str:
+        if self._ksk_map is not None and label in self._ksk_map:
+            return self._ksk_map[label]
         return self._ksk.format(label)
 
     def zsk(self, ident: str) -> str:
         return self._zsk.format(ident)
 
     def rid(self, rid: str) -> str:
+        if self._rid_fn is not None:
+            rid = self._rid_fn(rid)
         return self._rid.format(rid)
 
 
@@ -769,6 +786,135 @@ TEXT_PROFILES: dict[str, Text] = {
     # accents (NFD) in the identifiers that are free text
     "unnormalised": Text("unnormalised", "{}_\u212bngstr\ufb01", "zu\u0308rich-{}", "re\u0301q-{}"),
 }
+
+
+def _quarter_digits(grow: bool) -> Any:
+    """`req-q<N>…` -> `req-q` + a run of 1s whose length grows (shrinks) with N: the request id of a quarter is a proper
+    prefix of the next (previous) quarter's, and so are the bundle ids' stems."""
+    import re
+
+    def fn(rid: str) -> str:
+        return re.sub(r"q(\d+)", lambda m: "q" + "1" * ((int(m.group(1)) + 1) if grow else max(1, 12 - int(m.group(1)))), rid, count=1)
+
+    return fn
+
+
+# XML-SPECIAL CONTENT that the repository's reader hands over verbatim (it resolves no references) and the writer must put back
+# verbatim: the request id a KSR re-uses is compared with what the previous SKR shows, as the reader reads both.  ZSK key
+# identifiers, request ids (and with them bundle ids) only: KSK labels and the domain are confined by the configuration
+# (`^[\w_]+$`, `^[\w\.]+$`).  NOT part of TEXT_PROFILES (corr_C03 iterates those with the strict standard-parser comparison).
+XML_TEXT_PROFILES: dict[str, Text] = {
+    # the five characters `&amp;` — a standard parser reads `&` — and the same escaped once more
+    "amp-reference": Text("amp-reference", "{}", "{}&amp;zone", "root&amp;arpa-{}-a&amp;amp;b", references=True),
+    # the other predefined entities
+    "predefined-entities": Text("predefined-entities", "{}", "{}&lt;z&gt;", "{}&quot;q&quot;&apos;&lt;&gt;", references=True),
+    # numeric character references, decimal and hexadecimal (u-umlaut, hyphen, copyright sign, an astral character)
+    "numeric-references": Text("numeric-references", "{}", "z&#252;rich-{}", "{}-&#x2d;-&#169;&#x1F511;", references=True),
+    # an apostrophe and a TAB inside the attribute value (a standard parser normalises the tab to a blank)
+    "apostrophe-tab": Text("apostrophe-tab", "{}", "{}'s", "it's\t{}", references=True),
+    # a bare ampersand, a reference without its semicolon, an empty reference: not well-formed XML; the reader accepts it verbatim
+    "bare-ampersand": Text("bare-ampersand", "{}", "{}&z", "AT&T-{}-&amp-&;", references=True, wellformed=False),
+}
+# IDENTIFIER RELATIONS: labels / identifiers / ids that are distinct but related as strings (compared for equality everywhere)
+RELATED_TEXT_PROFILES: dict[str, Text] = {
+    # the current KSK's label is a proper prefix of the next one's; ZSK identifiers continue a KSK label; each request id is a proper prefix of the next quarter's
+    "related-growing": Text("related-growing", "{}", "KC2016{}", "{}", ksk_map={"Kcurrent": "KC2016", "Knext": "KC2016b"}, rid_fn=_quarter_digits(True)),
+    # the other direction; labels differ only in case from each other's stem, ZSK identifiers are a KSK label's suffix + digits
+    "related-shrinking": Text("related-shrinking", "{}", "C2016{}", "{}", ksk_map={"Kcurrent": "KC2016b", "Knext": "kc2016B"}, rid_fn=_quarter_digits(False)),
+}
+
+
+def resolve_references(text: str, *, attr: bool = True) -> str:
+    """What a standard XML parser makes of raw attribute (element) text: literal TAB / LF / CR become blanks in an attribute
+    value (XML 1.0 §3.3.3), then the predefined entities and numeric character references are resolved.  Written from the XML
+    recommendation, independent of any library.  Raises ValueError where the text is not well-formed (a bare `&`)."""
+    if attr:
+        text = text.replace("\r\n", " ").replace("\t", " ").replace("\n", " ").replace("\r", " ")
+    out = []
+    i = 0
+    named = {"amp": "&", "lt": "<", "gt": ">", "quot": '"', "apos": "'"}
+    while i < len(text):
+        c = text[i]
+        if c == "<":
+            raise ValueError("'<' in character data")
+        if c != "&":
+            out.append(c)
+            i += 1
+            continue
+        j = text.find(";", i)
+        if j < 0:
+            raise ValueError("reference without ';'")
+        body = text[i + 1 : j]
+        if body in named:
+            out.append(named[body])
+        elif body[:2] == "#x" and body[2:] and all(ch in "0123456789abcdefABCDEF" for ch in body[2:]):
+            out.append(chr(int(body[2:], 16)))
+        elif body[:1] == "#" and body[1:].isdigit() and body[1:].isascii():
+            out.append(chr(int(body[1:])))
+        else:
+            raise ValueError(f"unknown reference &{body};")
+        i = j + 1
+    return "".join(out)
+
+
+def resolve_document(doc: dict[str, Any]) -> dict[str, Any]:
+    """A response / request in the JSON shape of lib.response_j whose texts are RAW (the repository's verbatim reading) ->
+    the same with every attribute text as a standard parser shows it (ids, domain, key identifiers)."""
+    out = dict(doc)
+    for f in ("id", "domain"):
+        out[f] = resolve_references(doc[f])
+    bundles = []
+    for b in doc["bundles"]:
+        nb = dict(b, id=resolve_references(b["id"]))
+        nb["keys"] = [dict(k, keyIdentifier=resolve_references(k["keyIdentifier"])) for k in b["keys"]]
+        nb["signatures"] = [dict(x, keyIdentifier=resolve_references(x["keyIdentifier"])) for x in b["signatures"]]
+        bundles.append(nb)
+    out["bundles"] = bundles
+    return out
+
+
+def raw_ids(xml_text: str) -> tuple[str | None, list[str]]:
+    """(request id, bundle ids) of a KSR / SKR as RAW attribute text, in document order — what stands between the quotes in
+    the file (plain form: double quotes, `id` first)."""
+    import re
+
+    m = re.search(r'<KSR id="([^"]*)"', xml_text)
+    return (m.group(1) if m else None), re.findall(r'<(?:Request|Response)Bundle id="([^"]*)"', xml_text)
+
+
+def echo_mismatch(request_reading: Any, response_reading: Any) -> str | None:
+    """An SKR answers a KSR: id, serial, domain, the bundle ids in order and, per bundle, the ZSKs (identifier, key text) of the
+    request must come back EXACTLY as the same reader reads them from the request — whatever the text looks like (the next
+    ceremony compares the new KSR's ids with these).  Both arguments in the JSON shape of lib.request_j / lib.response_j,
+    read by one and the same reader.  None = echoed; otherwise the first difference."""
+    if request_reading is None or response_reading is None:
+        return "unreadable"
+    for f in ("id", "serial", "domain"):
+        if request_reading[f] != response_reading[f]:
+            return f"{f}: the KSR has {request_reading[f]!r}, the SKR shows {response_reading[f]!r}"
+    qb, rb = request_reading["bundles"], response_reading["bundles"]
+    if [b["id"] for b in qb] != [b["id"] for b in rb]:
+        return f"bundle ids: the KSR has {[b['id'] for b in qb]!r}, the SKR shows {[b['id'] for b in rb]!r}"[:400]
+    for i, (q, a) in enumerate(zip(qb, rb)):
+        want = sorted((k["keyIdentifier"], k["publicKey"]) for k in q["keys"])
+        got = sorted((k["keyIdentifier"], k["publicKey"]) for k in a["keys"] if k["flags"] & 1 == 0)
+        if want != got:
+            return f"bundle {i + 1}: ZSK identifiers {[x[0] for x in got]!r} are not the request's {[x[0] for x in want]!r}"[:400]
+    return None
+
+
+def corrupt_signature(xml: str, which: int = -1) -> str:
+    """The document with ONE base64 character of its `which`-th <SignatureData> changed (same length, still base64)."""
+    import re
+
+    ms = list(re.finditer(r"<SignatureData>([^<]*)</SignatureData>", xml))
+    m = ms[which]
+    body = m.group(1)
+    k = len(body) // 2
+    while body[k] in "=\n\r \t":
+        k -= 1
+    repl = "B" if body[k] != "B" else "C"
+    return xml[: m.start(1)] + body[:k] + repl + body[k + 1 :] + xml[m.end(1) :]
 
 
 def apply_text(sc: S.Scenario, text: Text | None, *, rid: bool = True) -> S.Scenario:
@@ -834,17 +980,26 @@ def first_difference(a: Any, b: Any, path: str = "") -> str | None:
     return None if a == b else f"{path or '/'}: {a!r} != {b!r}"[:300]
 
 
-def reader_mismatch(xml_bytes: bytes, repo_reading: Any) -> str | None:
+def reader_mismatch(xml_bytes: bytes, repo_reading: Any, *, references: bool = False) -> str | None:
     """An emitted SKR must be to the tools' own loader what it is to a standard XML parser: `repo_reading` (the
     repository's response_from_xml of the decoded file, any form lib.response_j takes) against the ElementTree reading of
-    the same bytes, both canonicalised (sets sorted).  None = the same document; otherwise where they first differ."""
+    the same bytes, both canonicalised (sets sorted).  None = the same document; otherwise where they first differ.
+    references=True (histories spelled with XML_TEXT_PROFILES only): the repository's reader hands attribute text over
+    verbatim, a standard parser resolves references and normalises white space in it; the repository's reading is then
+    compared AFTER `resolve_document` (this module's own transcription of those two steps)."""
     if repo_reading is None:
         return "the repository's reader cannot read the file"
     try:
         doc = S.response_sorted_j(skr_document(xml_bytes))
     except Exception as exc:  # noqa: BLE001
         return f"a standard XML parser cannot read the file: {type(exc).__name__}: {str(exc)[:160]}"
-    return first_difference(S.response_sorted_j(repo_reading), doc)
+    mine = S.response_sorted_j(repo_reading)
+    if references:
+        try:
+            mine = S.response_sorted_j(resolve_document(mine))
+        except ValueError as exc:
+            return f"the repository's reading holds text that is not well-formed character data: {exc}"
+    return first_difference(mine, doc)
 
 
 def _in_order_of(model: list[Any], doc: list[Any]) -> list[Any] | None:
